@@ -37,3 +37,31 @@ def install_all(reg):
     algorithms.install_skipnode(reg)
     algorithms.install_target(reg)
     algorithms.install_dfs(reg)
+
+    _extra_tags(reg)
+
+
+# Properties that are relational (two runs / two presentations / two networks) are decided through the FUNCTIONAL
+# postconditions of the contracts below: the postcondition determines the resulting abstract diagram uniquely from the
+# abstract network and the entry diagram, so two runs (C19), two presentations with the same semantics and variable order
+# (C17), or the sub-diagram below a node and the diagram of the restricted network (C18, with lemma L14) agree.
+EXTRA_TAGS = {
+    "biobalm.succession_diagram.SuccessionDiagram.__init__": ("C18", "C19"),
+    "biobalm.succession_diagram.SuccessionDiagram._ensure_node": ("C18", "C19"),
+    "biobalm.succession_diagram.SuccessionDiagram._expand_one_node": ("C18", "C19"),
+    "biobalm.succession_diagram.SuccessionDiagram.node_successors": ("C18", "C19"),
+    "biobalm._sd_algorithms.expand_bfs.expand_bfs": ("C18", "C19"),
+    "biobalm._sd_algorithms.expand_dfs.expand_dfs": ("C19",),
+    "biobalm.space_utils.percolate_space_strict": ("C17",),
+    "biobalm.symbolic_utils.function_eval": ("C17",),
+    "biobalm.space_utils.percolate_space": ("C17",),
+    "biobalm.space_utils.space_unique_key": ("C19",),
+    "biobalm.trappist_core._create_clingo_constraints": ("C17", "C19"),
+    "biobalm.trappist_core._create_clingo_fixed_point_constraints": ("C17", "C19"),
+}
+
+
+def _extra_tags(reg):
+    for q, tags in EXTRA_TAGS.items():
+        c = reg.contracts[q]
+        c.properties = tuple(c.properties) + tuple(t for t in tags if t not in c.properties)
